@@ -17,7 +17,7 @@ theorem solveCnf_spec (fuel : Nat) (cnf : CNF) (o : Oracle) :
     (∀ a, solveCnf fuel cnf o = .sat a → isSolution cnf a = true) ∧
     (∀ c' ps, solveCnf fuel cnf o = .unsat c' ps →
       (¬ ∃ σ, Sat σ cnf) ∧ checkTrace c' cnf.length ps = true ∧
-      c'.take cnf.length = cnf.map dedup) := by
+      c'.take cnf.length = cnf.map dedup ∧ checkProofs cnf ps = true) := by
   unfold solveCnf
   dsimp only
   have ht := unitPropagate_spec ((varsOf (cnf.map dedup)).length + 2) (cnf.map dedup) [] 0
@@ -26,7 +26,7 @@ theorem solveCnf_spec (fuel : Nat) (cnf : CNF) (o : Oracle) :
   obtain ⟨pr, tr⟩ := up
   dsimp only
   have hinv : Inv (cnf.map dedup) ⟨cnf.map dedup, tr, 0, [], o.res⟩ :=
-    ⟨⟨[], by simp⟩, fun c hc σ hσ => hσ c hc, ht.1, TraceOK.nil _⟩
+    ⟨⟨[], by simp⟩, fun c hc σ hσ => hσ c hc, ht.1, TraceOK.nil _, _, rfl, Shadow.refl _⟩
   obtain ⟨h1, h2⟩ := mainLoop_spec (cnf.map dedup) _ (varsOf (cnf.map dedup)).length fuel fuel
     _ pr hinv ht.2
   refine ⟨?_, ?_⟩
@@ -39,11 +39,12 @@ theorem solveCnf_spec (fuel : Nat) (cnf : CNF) (o : Oracle) :
     obtain ⟨l, hl, hs⟩ := h3
     exact ⟨l, mem_dedup.mp hl, hs⟩
   · intro c' ps h
-    obtain ⟨h3, h4, h5⟩ := h2 c' ps h
-    simp only [List.length_map] at h4 h5
-    refine ⟨?_, h4, h5⟩
-    rintro ⟨σ, hσ⟩
-    exact h3 ⟨σ, sat_map_dedup.mpr hσ⟩
+    obtain ⟨h3, h4, h5, sh, h6, h7⟩ := h2 c' ps h
+    simp only [List.length_map] at h4 h5 h7
+    refine ⟨?_, h4, h5, ?_⟩
+    · rintro ⟨σ, hσ⟩
+      exact h3 ⟨σ, sat_map_dedup.mpr hσ⟩
+    · simp only [checkProofs, h6, h7]
 
 /-- The assignment read off a solution list (unassigned variables false). -/
 def asgFun (a : List (Nat × Bool)) (n : Nat) : Bool :=
